@@ -63,9 +63,11 @@ func (v *Vue) evalAttributes(ctx VueContext, n *html.Node) (map[string]any, erro
 			}
 			results[boundName] = boundValue
 		default:
+			// a static attribute passes through with the value it was written with, white space included
 			var err error
-			if containsInterpolation(val) {
-				boundValue, err = v.interpolate(ctx, val)
+			boundValue = a.Val
+			if containsInterpolation(a.Val) {
+				boundValue, err = v.interpolate(ctx, a.Val)
 				if err != nil {
 					return nil, fmt.Errorf("error evaluating attr %s: %w", boundName, err)
 				}
